@@ -41,7 +41,7 @@ theorem doAct_quiet (c0 : Cfg) (rest : List Instr) (c : Cfg) (a : Act)
     Quiet c0 rest (fin (doAct c a)) := by
   rw [quiet_iff]
   unfold doAct
-  split <;> (try dsimp only) <;> (try split) <;> simp [prints_cons, isMark, *]
+  split <;> (try dsimp only) <;> (try split) <;> simp [prints_cons, *]
 
 theorem step_eff (P : Prog) (c : Cfg) : StepEff P c (fin (step P c)) := by
   unfold StepEff
@@ -51,6 +51,51 @@ theorem step_eff (P : Prog) (c : Cfg) : StepEff P c (fin (step P c)) := by
     case act a => exact doAct_quiet c rest _ a rfl rfl rfl
     case getDispatch =>
       exact quiet_take c rest _ (fun s => [.processSignal s]) rfl (qt_refl _) rfl (by simp [prints_cons])
-    all_goals sorry
+    case waitStep cls t =>
+      split
+      · exact quiet_take c rest _ (fun s => [.processSignal s, .waitCheck cls t]) rfl (qt_refl _) rfl
+          (by simp [prints_cons])
+      · rw [quiet_iff]; simp
+    case kill s =>
+      simp only [Cfg.raise, unwind_sysexit, fin_error]
+      simp [killChunks]
+    case printWidget scr =>
+      split
+      · refine ⟨by simp, by simp, fun ls hls => .inl ?_⟩
+        rw [fin_raise] at hls
+        exact prints_raised (X := prints rest) (fun _ h => h) hls
+      · next lines hl =>
+        split
+        · exact ⟨by simp, by simp, fun ls hls => .inl (by simpa using hls)⟩
+        · next evs he =>
+          refine ⟨by simp, by simp, fun ls hls => ?_⟩
+          simp only [fin_ok, push, prints_append] at hls
+          rcases List.mem_append.mp hls with hls | hls
+          · exact .inr ⟨scr, lines, hl, prints_go scr lines evs [] [] (printWidget_lines _ _ _ he)
+              (by simp) (by simp) ls hls⟩
+          · exact .inl hls
+    case inputReceived s =>
+      split
+      · rw [quiet_iff]; simp
+      · rw [quiet_iff]
+        simp only [fin_ok]
+        generalize hX : List.foldl _ _ _ = X
+        obtain ⟨k1, k2, k3⟩ : X.A.out = c.A.out ∧ X.code = rest ∧ QT c.tr X.tr := by
+          rw [← hX]
+          exact foldl_frame _ _ _ _ (by intro c a; simp) _ _ (by simp) (by simp) (by simp)
+        exact ⟨k1, k3, by rw [k2]; exact fun _ h => h⟩
+    case getInput2 scr args =>
+      split
+      · simp
+      · exact ⟨(startRequest_frame _ _ _ _).1, (startRequest_frame _ _ _ _).2.1, (startRequest_frame _ _ _ _).2.2⟩
+    case blockingInput scr cont =>
+      refine ⟨(startRequest_frame _ _ _ _).1, (startRequest_frame _ _ _ _).2.1, fun x hx => ?_⟩
+      have := (startRequest_frame _ _ _ _).2.2 hx
+      simpa [prints_cons] using this
+    all_goals try rw [quiet_iff]
+    all_goals (try split) <;> (try split) <;> (try split) <;> (try split) <;> (try simp [prints_cons, prints_map_act]; done)
+    -- identCheck: the rest of `_process_screen` is skipped
+    · refine ⟨by simp, by simp, ?_⟩
+      exact (prints_sublist (List.dropWhile_sublist _)).subset
 
 end Simpleline.Output
